@@ -746,7 +746,9 @@ pub fn opus_packet(tag: u32, len: usize) -> Vec<u8> {
     // packet (TOC 0x03) with its frame-count byte (one CBR frame)
     let cfg = [15u8, 4, 24, 0][(tag % 4) as usize];
     let mut p = if tag % 4 == 3 { vec![(cfg << 3) | 3, 0x01] } else { vec![cfg << 3] };
-    p.extend(body(tag.wrapping_add(0x23), len.max(1)));
+    // len 0: the shortest packets there are - a lone TOC byte (code 0, an empty frame: DTX) or TOC
+    // plus count byte (code 3)
+    p.extend(body(tag.wrapping_add(0x23), len));
     p
 }
 
